@@ -35,15 +35,16 @@ func hook(kind string) {
 type Pool struct {
 	New   func() any
 	items []any
-	reg   bool
 }
 
 // Pools lists every shim pool that has been used (for reset and state digests).
 var Pools []*Pool
 
+var registered = map[*Pool]bool{}
+
 func (p *Pool) register() {
-	if !p.reg {
-		p.reg = true
+	if !registered[p] {
+		registered[p] = true
 		Pools = append(Pools, p)
 	}
 }
